@@ -112,6 +112,14 @@ func PropagateLookaheads(m *Model) error {
 		}
 	}
 
+	for _, inp := range m.Inputs {
+		// Input nonterminals are instantiated without arguments.
+		nt := m.Nonterms[inp.Nonterm]
+		for _, param := range nt.Params[len(nt.Params)-state[inp.Nonterm].numLA:] {
+			s.Errorf(nt.Origin, "lookahead flag %v cannot be propagated into the input nonterminal %v", m.Params[param].Name, nt.Name)
+		}
+	}
+
 	// 3. Check that all the flag requirements are met.
 	for i, nt := range m.Nonterms {
 		used.ClearAll(len(m.Params))
